@@ -23,6 +23,7 @@ type timedCase struct {
 	DT      int      `json:"dispatch_timeout_ms"`
 	HB      int      `json:"heartbeat_ms"`
 	Exp     int      `json:"token_exp_ms"` // 0 = no exp claim (ms after t0, whole seconds)
+	Claim   string   `json:"claim,omitempty"` // "" = the plain "mercure" claim; "ns" = the namespaced fallback claim; "cookie" = plain claim in the cookie
 	Arr     [][2]int `json:"arrivals"`     // (ms after t0, id)
 	Close   int      `json:"client_close_ms"`
 	Horizon int      `json:"horizon_ms"`
@@ -81,8 +82,16 @@ func runTimedCase(c *h.Ctx, r *h.Report, cs timedCase) {
 		ctx, cancel := context.WithCancel(context.Background())
 		req, _ := http.NewRequestWithContext(ctx, http.MethodGet, "http://hub.test"+hubURL+"?"+q.Encode(), nil)
 		if cs.Exp != 0 {
-			tok := jws.Mint(f.subKey, fmt.Sprintf(`{"mercure":{"subscribe":["*"]},"exp":%d}`, t0.Unix()+int64(cs.Exp/1000)))
-			req.Header.Set("Authorization", "Bearer "+tok)
+			claimKey := "mercure"
+			if cs.Claim == "ns" {
+				claimKey = "https://mercure.rocks/" // the namespaced spelling of the claim: same rights, same expiry
+			}
+			tok := jws.Mint(f.subKey, fmt.Sprintf(`{%q:{"subscribe":["*"]},"exp":%d}`, claimKey, t0.Unix()+int64(cs.Exp/1000)))
+			if cs.Claim == "cookie" {
+				req.AddCookie(&http.Cookie{Name: "mercureAuthorization", Value: tok})
+			} else {
+				req.Header.Set("Authorization", "Bearer "+tok)
+			}
 		}
 		w := &timedRW{hdr: http.Header{}, t0: t0}
 		returned := int64(-1)
@@ -239,7 +248,7 @@ func runTimedCase(c *h.Ctx, r *h.Report, cs timedCase) {
 }
 
 func runTimed(c *h.Ctx, r *h.Report) {
-	r.Rule = "the real SubscribeHandler inside a synctest bubble (virtual clock) with a ResponseWriter that implements SetWriteDeadline and fails writes at or after the armed deadline: write timeout in {0, 5..120 s}, dispatch timeout in {0, 1..30 s} (also larger than the write timeout), heartbeat in {0, 7, 13, 40 s}, token expiry absent / before / after the write timeout, 0-6 publishes at arbitrary instants (chosen so that no two timers or arrivals fall on the same millisecond: such ties are resolved at random by Go's select), optional client close; the recorded (virtual time, write | failed write | return) trace is compared with the model's, and the property's oracle (heartbeat gap, nothing written after the deadline, self-disconnect exactly at deadline - dispatch timeout) is evaluated on the implementation's trace alone. Non-trivial = case with at least one publish and a heartbeat or a deadline; distinct by content."
+	r.Rule = "the real SubscribeHandler inside a synctest bubble (virtual clock) with a ResponseWriter that implements SetWriteDeadline and fails writes at or after the armed deadline: write timeout in {0, 5..120 s}, dispatch timeout in {0, 1..30 s} (also larger than the write timeout), heartbeat in {0, 7, 13, 40 s}, token (claim spelt 'mercure' or with the namespaced fallback key, in the Authorization header or the cookie) expiry absent / before / after the write timeout, 0-6 publishes at arbitrary instants (chosen so that no two timers or arrivals fall on the same millisecond: such ties are resolved at random by Go's select), optional client close; the recorded (virtual time, write | failed write | return) trace is compared with the model's, and the property's oracle (heartbeat gap, nothing written after the deadline, self-disconnect exactly at deadline - dispatch timeout) is evaluated on the implementation's trace alone. Non-trivial = case with at least one publish and a heartbeat or a deadline; distinct by content."
 	if c.Replay != "" {
 		var rp struct {
 			Case timedCase `json:"case"`
@@ -252,6 +261,7 @@ func runTimed(c *h.Ctx, r *h.Report) {
 	for _, cs := range []timedCase{
 		{WT: 60000, DT: 5000, HB: 25000, Arr: [][2]int{{30137, 1}}, Horizon: 200000},
 		{WT: 0, DT: 5000, HB: 40000, Exp: 90000, Horizon: 200000},
+		{WT: 0, DT: 0, HB: 7000, Exp: 17000, Claim: "ns", Horizon: 100000},
 		{WT: 3000, DT: 5000, HB: 0, Horizon: 100000},
 		{WT: 0, DT: 0, HB: 0, Arr: [][2]int{{500, 1}}, Horizon: 100000},
 	} {
@@ -266,6 +276,7 @@ func runTimed(c *h.Ctx, r *h.Report) {
 		cs.HB = h.Pick(rr, []int{0, 7000, 13000, 40000})
 		if rr.Chance(1, 2) {
 			cs.Exp = h.Pick(rr, []int{3000, 17000, 45000, 90000, 200000})
+			cs.Claim = h.Pick(rr, []string{"", "", "ns", "cookie"})
 		}
 		// arrivals: distinct non-zero residues mod 1000
 		na := rr.Intn(7)
